@@ -11,7 +11,17 @@ namespace {
 
 static const char ENUM_ALPHA[] = "%0DAda+ x\r\nG\xE4";      // 13 symbols; all strings up to length 4 (quick) / 5 (thorough)
 static uint64_t nenum(Ctx& c) { return genum_count(13, (size_t)c.param_int("enum_len", c.tier == "thorough" ? 5 : 4)); }
-static uint64_t ncases(Ctx& c) { return nenum(c) + (uint64_t)c.param_int("random", c.tier == "thorough" ? 5000000 : 150000); }
+// token-level enumeration: all sequences of up to N tokens (the decoder's states: well-formed break triplets in both cases,
+// truncated and malformed '%' sequences, '+', literal breaks, ordinary characters)
+static const char* const TOKENS[] = {"%0D", "%0A", "%0d", "%0a", "%", "%4", "%G", "%4G", "%41", "+", "\r", "\n", " ", "a", "%e4", "%00x"};
+static const size_t NTOK = sizeof(TOKENS) / sizeof(TOKENS[0]);
+static uint64_t ntok(Ctx& c) { return genum_count(NTOK, (size_t)c.param_int("tok_len", c.tier == "thorough" ? 5 : 4)); }
+static Str tok_case(uint64_t idx) {
+    uint64_t p = 1; size_t l = 0; while (idx >= p) { idx -= p; p *= NTOK; l++; }
+    std::vector<const char*> v(l); for (size_t i = 0; i < l; i++) { v[l - 1 - i] = TOKENS[idx % NTOK]; idx /= NTOK; }
+    Str s; for (auto t : v) s += t; return s;
+}
+static uint64_t ncases(Ctx& c) { return nenum(c) + ntok(c) + (uint64_t)c.param_int("random", c.tier == "thorough" ? 5000000 : 150000); }
 
 template <class X> struct Esc {
     typedef typename X::Char Char;
@@ -95,7 +105,9 @@ static Esc<ApiA>* eA; static Esc<ApiW>* eW;
 static void run_case(Ctx& c, uint64_t idx) {
     if (!eA) { eA = new Esc<ApiA>(); eW = new Esc<ApiW>(); }
     Str s; uint64_t ne = nenum(c);
-    if (idx < ne) s = genum_case(idx, Str(ENUM_ALPHA, 13), 6); else s = gen_string(c.rng, c.rng.chance(1, 30) ? 400 : 24);
+    if (idx < ne) s = genum_case(idx, Str(ENUM_ALPHA, 13), 6);
+    else if (idx < ne + ntok(c)) s = tok_case(idx - ne);
+    else s = gen_string(c.rng, c.rng.chance(1, 30) ? 400 : 24);
     c.note("escape \"" + esc(s.substr(0, 200)) + "\"");
     c.distinct(hash_str(s));
     if (idx % 2 == 0) { eA->escape_checks(c, s); eA->unescape_checks(c, s); } else { eW->escape_checks(c, s); eW->unescape_checks(c, s); }
